@@ -95,6 +95,21 @@ func c13Decode(c *Ctx, s []byte) {
 		return obsDecode(b, err)
 	})
 	c.Case(E_B64DecodeSafe, [][]byte{s}, func() Obs { b, err := base64.DecodeStringSafe(string(s)); okS64 = err == nil; return obsDecode(b, err) })
+	// inside their documented limits the size-guarded variants are the plain decoders
+	if len(s) > 0 {
+		same := func(name string, limit int, plain, safe func(string) ([]byte, error)) {
+			if len(s) > limit {
+				return
+			}
+			pb, pe := plain(string(s))
+			sb, se := safe(string(s))
+			c.Check("safe_variant_is_plain_within_limits", (pe == nil) == (se == nil) && (pe != nil || bytes.Equal(pb, sb)), name, [][]byte{s}, "",
+				fmt.Sprintf("plain decoder error=%v, size-guarded variant error=%v", pe, se))
+		}
+		same("base32.DecodeStringSafe", base32.MAX_DECODE_SIZE, base32.DecodeString, base32.DecodeStringSafe)
+		same("base32.DecodeStringSafeNoPadding", base32.MAX_DECODE_SIZE, base32.DecodeStringNoPadding, base32.DecodeStringSafeNoPadding)
+		same("base64.DecodeStringSafe", base64.MAX_DECODE_SIZE, base64.DecodeString, base64.DecodeStringSafe)
+	}
 	// the size-guarded variants accept no more than the plain decoders
 	ok32, ok32n, ok64 = ok32 || okS32, ok32n || okS32n, ok64 || okS64
 	// only the alphabet (plus CR/LF, plus '=' where padding is used) is ever accepted
